@@ -215,9 +215,10 @@ func (e *tieEnc) schange(c schema.Change) {
 }
 
 // tieCase encodes the run for the model; cur is the inspected current schema (foreign keys of the state).
-func tieCase(ctx context.Context, before *Dump, cur *schema.Schema, changes []schema.Change, fk, intx bool) (string, string) {
+func tieCase(ctx context.Context, before *Dump, cur *schema.Schema, changes []schema.Change, fk, intx bool, k int) (string, string) {
 	e := &tieEnc{ctx: ctx}
-	e.add(b01(fk), b01(intx), fmt.Sprint(len(before.Names)))
+	// k >= 0: only the first k statements of the plan are executed
+	e.add(b01(fk), b01(intx), fmt.Sprint(k), fmt.Sprint(len(before.Names)))
 	// tables in creation order would need sqlite_master.rowid; the model does not depend on the order
 	for _, n := range before.Names {
 		t := before.Tables[n]
@@ -249,8 +250,11 @@ func tieCase(ctx context.Context, before *Dump, cur *schema.Schema, changes []sc
 
 // tieObs prints the observation lines of the real run.
 func tieObs(before, after *Dump, errClass string) []string {
+	head := "res ok"
 	switch errClass {
 	case "":
+	case "prefix":
+		head = "res prefix"
 	case "refused-notnull":
 		return []string{"res ENotNull"}
 	case "refused-add-notnull":
@@ -274,12 +278,15 @@ func tieObs(before, after *Dump, errClass string) []string {
 		// ADD COLUMN, ...): the model never prints this, so the run shows up as a disagreement
 		return []string{"res unexpected-refusal:" + errClass}
 	}
-	out := []string{"res ok"}
+	out := []string{head}
 	names := append([]string(nil), after.Names...)
 	sort.Strings(names)
 	for _, n := range names {
 		t := after.Tables[n]
 		tb := before.Tables[n]
+		if tb == nil && strings.HasPrefix(n, "new_") {
+			tb = before.Tables[n[4:]] // the temporary twin of a table that is being rebuilt
+		}
 		var cols []string
 		mask := make([]int, len(t.Cols)) // 0 none, 1 declared type changed, 2 generated, 3 non-constant default
 		for i, c := range t.Cols {
